@@ -416,10 +416,73 @@ func oracleParse(b []byte) string {
 	return fmt.Sprintf("v=%d %s", v, strings.Join(parts, " "))
 }
 
+// typical contents of the one-byte fields that are enumerations on real cartridges (map mode, cartridge type, sizes, region, ...)
+var typicalHeaderBytes = map[string][]byte{
+	"MapMode": {0x20, 0x21, 0x22, 0x23, 0x25, 0x30, 0x31, 0x32, 0x35}, "CartridgeType": {0x00, 0x01, 0x02, 0x03, 0x13, 0x1A, 0x33, 0x35, 0xF3, 0xF6},
+	"ROMSize": {0x07, 0x08, 0x09, 0x0A, 0x0B, 0x0C, 0x0D}, "RAMSize": {0x00, 0x01, 0x03, 0x05, 0x07}, "DestinationCode": {0x00, 0x01, 0x02, 0x06, 0x09, 0x0D, 0x11},
+	"MaskROMVersion": {0x00, 0x01, 0x02}, "FlashSize": {0x00, 0x07}, "ExpansionRAMSize": {0x00, 0x01, 0x03, 0x05}, "SpecialVersion": {0x00}, "CoCPUType": {0x00, 0x01, 0x10},
+	"OldMakerCode": {0x00, 0x01, 0x33, 0x33, 0xB4},
+}
+
+// realisticHeader overwrites fields of a random header with contents that look like real data: ASCII text padded to the field
+// width with spaces, zeros or $FF (any text length from empty to full), a whole field of $20 / $00 / $FF, typical values in the
+// enumeration bytes, a complement that matches the checksum, vectors pointing into the ROM half of bank 0. Each field is treated
+// independently, so realistic and random fields mix.
+func realisticHeader(r *prng.R, b []byte) {
+	const alnum = "ABCDEFGHIJKLMNOPQRSTUVWXYZ0123456789"
+	pads := []byte{0x20, 0x00, 0xFF}
+	for _, f := range documentedFields {
+		fb := b[f.off : f.off+f.size]
+		switch r.N(5) {
+		case 0: // left as it is
+		case 1: // the whole field one padding byte
+			pad := pads[r.N(3)]
+			for i := range fb {
+				fb[i] = pad
+			}
+		case 2, 3: // text, padded (the numeric multi-byte fields are character codes on real cartridges too: maker and game code)
+			if tv, ok := typicalHeaderBytes[f.name]; ok {
+				fb[0] = tv[r.N(len(tv))]
+				break
+			}
+			if strings.Contains(f.name, "Vectors") {
+				if f.size == 2 {
+					v := 0x8000 | r.U16()
+					fb[0], fb[1] = byte(v), byte(v>>8)
+				}
+				break
+			}
+			k := r.N(f.size + 1)
+			pad := pads[r.N(3)]
+			for i := range fb {
+				switch {
+				case i >= k:
+					fb[i] = pad
+				case r.Chance(10):
+					fb[i] = ' ' // a blank inside the text
+				default:
+					fb[i] = alnum[r.N(len(alnum))]
+				}
+			}
+		default:
+			if tv, ok := typicalHeaderBytes[f.name]; ok {
+				fb[0] = tv[r.N(len(tv))]
+			}
+		}
+	}
+	if r.Chance(50) { // complement = ^checksum
+		b[0x2C], b[0x2D] = ^b[0x2E], ^b[0x2F]
+	}
+}
+
 func genHeaderBytes(r *prng.R, rep *report.Report) []byte {
 	b := make([]byte, 80)
 	for i := range b {
 		b[i] = r.U8()
+	}
+	if r.Chance(50) {
+		realisticHeader(r, b)
+		rep.Count("header: fields with realistic contents (padded text, uniform padding, typical enumeration values)")
 	}
 	switch r.N(5) {
 	case 0:
@@ -645,7 +708,7 @@ func runHeader() {
 	}
 	rep.Evaluations = int64(len(reqs)) + int64(n)*3 + int64(n/3)*2 + int64(n/4)*6
 	rep.Distinct = int64(len(distinct))
-	rep.Rule = "random 80-byte headers biased to versions 1/2/3 (and both markers), zero / non-zero extended area, single-byte perturbations of all 80 positions, short inputs, " +
+	rep.Rule = "random 80-byte headers biased to versions 1/2/3 (and both markers), zero / non-zero extended area, half of them with fields that look like real data (ASCII text of every length padded with spaces / zeros / $FF in title, maker and game code, whole fields of $20 / $00 / $FF, typical enumeration bytes, matching complement, vectors into bank 0), single-byte perturbations of all 80 positions, short inputs, " +
 		"images of 32 KiB, 32 KiB+1, 64 KiB, 160 KiB and irregular sizes (n*32 KiB +1, -1, +512, +511/513, +2^k, odd) with the header parsed from another byte string written in; " +
 		"Header.ReadHeader on readers positioned mid-stream inside larger buffers (six ways of positioning, whole images seeked to the header, short remainders), Header.WriteHeader into writers already holding " +
 		"(partly consumed) bytes or windows with spare capacity, ROM entry points on images given as windows inside larger arrays, one image byte changed then re-read, HeaderOffset moved to $FFB0; " +
